@@ -229,7 +229,17 @@ def scenarios():
     materialize.materialize_defaults(c)
     b1 = fdl.build(c)
     t = visualize.with_defaults_trimmed(c)
-    return (b0 == b1 and fdl.build(t) == b0) or f'{b0} vs {b1}'
+    if not (b0 == b1 and fdl.build(t) == b0):
+      return f'{b0} vs {b1}'
+    # a default *factory* is no default value: the configuration must stay == to the original,
+    # serializable, and a second application must change nothing
+    if serializable(cfg) == 'T' and serializable(c) != 'T':
+      return 'materialize_defaults made a serializable configuration unserializable: ' + repr(c.__arguments__)
+    c2 = copy.deepcopy(c)
+    materialize.materialize_defaults(c2)
+    if not (c == cfg and c2 == c and c2.__arguments__.keys() == c.__arguments__.keys()):
+      return f'not == / not idempotent: {c.__arguments__}'
+    return True
   def s_convert_dataclasses():
     x = Outer(a=Inner(v=3, w=[9]), b=[Inner(), {'k': Inner(v=4)}], c=6)
     cfg = fdl_dc.convert_dataclasses_to_configs(x, allow_post_init=True)
